@@ -52,4 +52,127 @@ theorem marginal_scale_invariant [Field R] (I : Nat) (w : Nat → R) (c : R) (hc
   funext r j
   simp only [anovaL, C10.normW_scale I w c hc]
 
+
+/-! ### the extended tensor's weighted squares ARE the variance components (Parseval for the ANOVA operator) -/
+section parseval
+variable [Field R]
+
+/-- `Π_n w_n(x_n)` : the product measure -/
+def prodW : List (Nat → R) → List Nat → R
+  | w :: ws, x :: xs => w x * prodW ws xs
+  | _, _ => 1
+
+/-- weights on the extended box: index 0 (variable integrated out) has weight 1, index `i+1` has weight `w(i)` —
+    what `sobol` multiplies into `am` (`am.cores[n][:, 1:, :] *= m`) -/
+def extW : List (Nat → R) → List Nat → R
+  | w :: ws, j :: js => (if j = 0 then 1 else w (j - 1)) * extW ws js
+  | _, _ => 1
+
+/-- the ANOVA operator on every mode -/
+def anovaMaps : List (Nat → R) → List Nat → List (Option (Nat × (Nat → Nat → R)))
+  | w :: ws, n :: ns => some (n + 1, anovaL n w) :: anovaMaps ws ns
+  | _, _ => []
+
+/-- every weight vector sums to 1 over its mode -/
+def Normalized : List (Nat → R) → List Nat → Prop
+  | w :: ws, n :: ns => (∑ i ∈ range n, w i) = 1 ∧ Normalized ws ns
+  | [], [] => True
+  | _, _ => False
+
+/-- one mode: `E[uv] = E[u]E[v] + E[(u−Eu)(v−Ev)]`, i.e. `Aᵀ·diag(1,w)·A = diag(w)` -/
+theorem mode_parseval (n : Nat) (w : Nat → R) (hw : (∑ i ∈ range n, w i) = 1) (u v : Nat → R) :
+    (∑ i ∈ range (n + 1), (if i = 0 then 1 else w (i - 1)) *
+        ((∑ j ∈ range n, anovaL n w i j * u j) * (∑ j ∈ range n, anovaL n w i j * v j)))
+      = ∑ j ∈ range n, w j * (u j * v j) := by
+  rw [Finset.sum_range_succ']
+  simp only [C10.anovaL_row, Nat.add_one_ne_zero, if_false, if_true, Nat.add_sub_cancel, one_mul]
+  have e : ∀ i ∈ range n, w i * (((if i < n then u i else 0) - ∑ j ∈ range n, w j * u j) * ((if i < n then v i else 0) - ∑ j ∈ range n, w j * v j))
+      = w i * (u i * v i) - (∑ j ∈ range n, w j * v j) * (w i * u i) - (∑ j ∈ range n, w j * u j) * (w i * v i)
+        + (∑ j ∈ range n, w j * u j) * (∑ j ∈ range n, w j * v j) * w i := by
+    intro i hi; simp only [Finset.mem_range.mp hi, if_true]; ring
+  rw [Finset.sum_congr rfl e, Finset.sum_add_distrib, Finset.sum_sub_distrib, Finset.sum_sub_distrib,
+    ← Finset.mul_sum, ← Finset.mul_sum, ← Finset.mul_sum, hw]
+  ring
+
+/-- **Parseval for the ANOVA transform**: the weighted inner product of two functions on the box equals the
+    `extW`-weighted inner product of their extended (ANOVA) arrays -/
+theorem anova_parseval : ∀ (ws : List (Nat → R)) (ns : List Nat) (f g : List Nat → R), Normalized ws ns →
+    boxSum ns (fun x => prodW ws x * (f x * g x))
+      = boxSum (ns.map (· + 1)) (fun j => extW ws j *
+          (applyMaps (anovaMaps ws ns) ns f j * applyMaps (anovaMaps ws ns) ns g j)) := by
+  intro ws
+  induction ws with
+  | nil =>
+    intro ns f g h
+    cases ns with
+    | nil => simp [boxSum, prodW, extW, anovaMaps, applyMaps]
+    | cons _ _ => simp [Normalized] at h
+  | cons w ws ih =>
+    intro ns f g h
+    cases ns with
+    | nil => simp [Normalized] at h
+    | cons n ns =>
+      obtain ⟨hw, hrest⟩ := h
+      simp only [List.map_cons, boxSum, sumTo_eq, prodW, extW, anovaMaps, applyMaps]
+      -- left: pull w x out and use the induction hypothesis for the slices
+      have eL : ∀ x ∈ range n, boxSum ns (fun is => w x * prodW ws is * (f (x :: is) * g (x :: is)))
+          = w x * boxSum (ns.map (· + 1)) (fun js => extW ws js *
+              (applyMaps (anovaMaps ws ns) ns (fun ks => f (x :: ks)) js * applyMaps (anovaMaps ws ns) ns (fun ks => g (x :: ks)) js)) := by
+        intro x _
+        rw [← ih ns (fun ks => f (x :: ks)) (fun ks => g (x :: ks)) hrest, ← boxSum_mul_left]
+        apply boxSum_congr; intro is; ring
+      rw [Finset.sum_congr rfl eL]
+      -- right: exchange the sum over the extended index with the box sum, then one-mode Parseval pointwise
+      rw [← boxSum_sum]
+      have eR : (fun is => ∑ x ∈ range (n + 1), (if x = 0 then 1 else w (x - 1)) * extW ws is *
+            ((∑ j ∈ range n, anovaL n w x j * applyMaps (anovaMaps ws ns) ns (fun js => f (j :: js)) is) *
+             (∑ j ∈ range n, anovaL n w x j * applyMaps (anovaMaps ws ns) ns (fun js => g (j :: js)) is)))
+          = (fun is => ∑ j ∈ range n, w j * (extW ws is *
+              (applyMaps (anovaMaps ws ns) ns (fun ks => f (j :: ks)) is * applyMaps (anovaMaps ws ns) ns (fun ks => g (j :: ks)) is))) := by
+        funext is
+        have := mode_parseval n w hw (fun j => applyMaps (anovaMaps ws ns) ns (fun ks => f (j :: ks)) is)
+          (fun j => applyMaps (anovaMaps ws ns) ns (fun ks => g (j :: ks)) is)
+        have e1 : ∀ x ∈ range (n + 1), (if x = 0 then 1 else w (x - 1)) * extW ws is *
+            ((∑ j ∈ range n, anovaL n w x j * applyMaps (anovaMaps ws ns) ns (fun js => f (j :: js)) is) *
+             (∑ j ∈ range n, anovaL n w x j * applyMaps (anovaMaps ws ns) ns (fun js => g (j :: js)) is))
+            = extW ws is * ((if x = 0 then 1 else w (x - 1)) *
+            ((∑ j ∈ range n, anovaL n w x j * applyMaps (anovaMaps ws ns) ns (fun js => f (j :: js)) is) *
+             (∑ j ∈ range n, anovaL n w x j * applyMaps (anovaMaps ws ns) ns (fun js => g (j :: js)) is))) := by
+          intro x _; ring
+        rw [Finset.sum_congr rfl e1, ← Finset.mul_sum, this, Finset.mul_sum]
+        apply Finset.sum_congr rfl; intro j _; ring
+      rw [eR, boxSum_sum]
+      apply Finset.sum_congr rfl; intro j _
+      rw [boxSum_mul_left]
+
+/-- the all-zero extended index holds the mean: `a(0,…,0) = E_w[f]` -/
+theorem anova_mean : ∀ (ws : List (Nat → R)) (ns : List Nat) (f : List Nat → R), ws.length = ns.length →
+    applyMaps (anovaMaps ws ns) ns f (List.replicate ns.length 0) = boxSum ns (fun x => prodW ws x * f x) := by
+  intro ws
+  induction ws with
+  | nil => intro ns f h; cases ns with
+    | nil => simp [anovaMaps, applyMaps, boxSum, prodW]
+    | cons _ _ => simp at h
+  | cons w ws ih =>
+    intro ns f h
+    cases ns with
+    | nil => simp at h
+    | cons n ns =>
+      simp only [anovaMaps, List.length_cons, List.replicate_succ, applyMaps, boxSum, sumTo_eq, prodW]
+      apply Finset.sum_congr rfl; intro j _
+      rw [ih ns (fun js => f (j :: js)) (by simpa using h), ← boxSum_mul_left]
+      simp only [anovaL, if_true]
+      apply boxSum_congr; intro is; ring
+
+/-- **the total of the extended array's weighted squares is the second moment**, hence (with `anova_mean`)
+    removing the empty term leaves the VARIANCE: `Σ_{j≠0} W(j)·a(j)² = E[f²] − (E f)²` — the denominator of `sobol` -/
+theorem second_moment (ws : List (Nat → R)) (ns : List Nat) (f : List Nat → R) (h : Normalized ws ns) :
+    boxSum (ns.map (· + 1)) (fun j => extW ws j * (applyMaps (anovaMaps ws ns) ns f j) ^ 2)
+      = boxSum ns (fun x => prodW ws x * f x ^ 2) := by
+  rw [show (fun x => prodW ws x * f x ^ 2) = (fun x => prodW ws x * (f x * f x)) from by funext x; rw [sq],
+    anova_parseval ws ns f f h]
+  apply boxSum_congr; intro j; rw [sq]
+
+end parseval
+
 end TN.C09
